@@ -160,6 +160,19 @@ def run(ctx):
             ctx.count("exhaustive_strings")
             check_string(ctx, {"s": "".join(seq)})
     ctx.info["exhaustive_character_sequences"] = f"all {n} strings of <= {bound} characters over {len(CHARS)} characters"
+    # longer runs around the one function name: every string of <= 5 (quick) / 7 (thorough) characters over s g n x 2 ( and blank
+    small = ["s", "g", "n", "x", "2", "(", " "]
+    fb = 5 if ctx.tier == "quick" else 7
+    m = 0
+    for k in range(4, fb + 1):
+        for seq in itertools.product(small, repeat=k):
+            m += 1
+            if m % ctx.nshards != ctx.shard:
+                continue
+            ctx.count("evaluations")
+            ctx.count("exhaustive_function_name_strings")
+            check_string(ctx, {"s": "".join(seq)})
+    ctx.info["exhaustive_function_name_strings"] = f"all {m} strings of 4..{fb} characters over {small}"
     strat = st.one_of(supported, supported, supported, with_foreign).map(lambda s: {"s": s})
     hyp_run(ctx, "strings", strat, check_string, ctx.n(10000, 150000))
     if ctx.tier == "thorough":
